@@ -10,7 +10,11 @@ def run(c):
     c.rule = ("same bucket generator as C05 (namespaces x groups x metrics x fair keys, weights 1..1000 incl. unknown/zero -> clamped, fixed "
               "per-metric budgets at {0.5,0.75,1,2}x size and size-1, budgets around sum(size)*{0.1..1.5}, sum-1 and 0..30, 25% flat "
               "hierarchies), mode mix det 50% (test selector floor(len/sf), RoundF=floor; half of them with equally sized rows), quota 25% "
-              "(SampleQuota configured as in calcHostMetricBudgets, real roundSampleFactor), rand 25%. Every 6th case calls the REAL "
+              "(SampleQuota configured as in calcHostMetricBudgets, real roundSampleFactor), rand 25%. One case in five is shaped for isolation BELOW the metric level (flat hierarchy, SampleKeys on, the metric that sorts "
+              "first has no fair keys, the others fair-key lists of different lengths with one flooding value next to small ones); one metric in three "
+              "known to Meta also gets 1-3 rows that belong to ANOTHER metric (own Key.Metric and carried MetricMeta with other namespace/group/weight/"
+              "fair keys, as ingestion statuses accounted to a user metric) — the model resolves the meta from the carried one and meta storage. "
+              "Every 6th case calls the REAL "
               "aggregator.calcHostMetricBudgets on a real Aggregator (built-in agent, metajournal.MetricsStorage filled through ApplyEvent with 1-2 "
               "namespaces x 1-2 groups x 1-3 metrics of various weights, 1-4 hosts, reported sizes 0..120000, receive budgets around the total) and "
               "compares every (metric, host) budget incl. the x2 bonus with the model; its budget roundings use an unseeded generator, so the driver "
@@ -53,6 +57,9 @@ META = {
              "all_fit_nothing_sampled, bucket_fits_nothing_sampled); larger ratio => not smaller factor (factor_monotone_in_ratio); quota mode: "
              "quota = floor(size*budget/(denom*sumSize)), monotone in size, sum <= budget share (quota_proportional, quota_monotone, "
              "quota_sum_le_budget; with the x2 bonus of calcHostMetricBudgets: host_budget_cases, sampled_row_gets_no_bonus, host_budgets_le_twice_share); "
+             "a partition is sampled with the options of the metric its rows are ACCOUNTED to, whichever row sorts first "
+             "(resolve_uses_accounting_metric, metric_partition_uses_accounting_meta); a fair-key value within budget/#values is kept whole "
+             "(fair_key_within_share_kept, the byKey instance of fits_share_kept); "
              "deterministic selection never keeps more than the budget plus the fixed budgets in force, by induction over the whole partition tree "
              "(det_kept_le_budget, det_kept_le_budget_plain; SH/Lemmas/SamplerDet.lean), for rows of one size per metric; for rows of arbitrary "
              "sizes the code bounds the NUMBER of kept rows per leaf (det_leaf_count_le) and the byte form is false (det_size_bound_needs_uniform_rows). "
@@ -65,6 +72,9 @@ META = {
              "for ALL row sizes on every deterministic case meeting the other preconditions: kept rows counted at the average row size of their leaf "
              "(metric x fair key) sum to at most budget + fixed budgets. Quota sums: with the default random RoundF the sum over nested namespaces/groups "
              "can exceed the budget by one per rounded-up group (oracles allow exactly that). Not partial any more: calcHostMetricBudgets is executed. "
+             "Oracle fair-key-below-share-sampled judges fair-key values against floor(budget*w/W)/#values, a lower bound of the metric's budget "
+             "(valid in flat hierarchies without fixed budgets, where it is evaluated); the copying of the meta pointer from the first row of a "
+             "MetricID run is not modelled (the generator keeps rows of one accounting metric consistent). "
              "Reported SampleFactors (per-metric averages) are not modelled."),
     "design_ref": "DESIGN.md §6 C06",
 }
